@@ -92,7 +92,7 @@ def main():
     allnames = names + names_long
     # every name once in every position class, paired with a near neighbour (same first two characters / suffix / kind variants)
     for k, nm in enumerate(names if thorough else gen.sample(rng, names, 330)):
-        for pos in (POS if thorough else gen.sample(rng, POS, 4)):
+        for pos in gen.sample(rng, POS, 40 if thorough else 4):
             partner = rng.choice([nm, nm + "X", nm[:2] + "9", nm[0], nm[0] + "Q", rng.choice(allnames)])
             add(nm, pos, partner if isname(partner) else nm, rng.choice(POS))
     for nm in (names_long if thorough else gen.sample(rng, names_long, 250)):
@@ -127,7 +127,7 @@ def main():
         kwnames = sorted(set(kwnames + odd))
     gplan = []
     for nm in kwnames:
-        for pos in POS:
+        for pos in (POS if nm in kws else POS[:36] + gen.sample(rng, POS[36:], 60 if thorough else 40)):
             s1, v1 = use(nm, pos)
             gplan.append((nm, pos, v1, "10 " + s1 + "\n900 DATA 1,2:END"))
     gres = common.run_real("w_convert", [{"src": g[3], "opts": {"add_standard_prefix": False, "initialize_vars": False}} for g in gplan])
